@@ -275,6 +275,16 @@ def gen(seed, tier, want=None):
                 for j in range(7, W2, 53):
                     h3[j] = ord("b")
                 emit(lines, cfg, "FG", h3, [ord("a")] * m2, rng)
+        if kind == 3:
+            # every needle length around the point where the u16 score saturates (26 per character: 65535 / 26 = 2520),
+            # as a whole-haystack match with the largest bonuses, all algorithms, with and without prefix preference
+            for m3 in (2519, 2521, 2600, 4000):
+                h4 = []
+                while len(h4) < m3:
+                    h4 += [rng.choice([ord(c) for c in "abXy1"]), 32] if len(h4) % 7 else [ord("/"), rng.choice([ord(c) for c in "abXy1"])]
+                h4 = h4[:m3]
+                for pp in "01":
+                    emit(lines, cfg[:3] + pp, "FGSPOE", h4, fix_needle(cfg, [norm(cfg, "A", c) for c in h4]), rng)
         if kind == 4:
             # the match window beyond index 65535 (indices must not be narrowed to 16 bits), with and without a gap
             for W2, tail in ((70003, "q z"), (65536 + rng.randint(1, 900), "q--z"), (131075, "qz z")):
